@@ -192,7 +192,7 @@ fn run_op(bk: Bk, keys: &mut Keys, shared: &Shared, st: &mut ThreadState, mail: 
     }
     let s = mix(seed, "thread-op", (t as u64) << 32 | i as u64);
     let spec = match op {
-        TOp::EncryptRngFail => RngSpec::Fail { at: 0, partial: 3, seed: s },
+        TOp::EncryptRngFail => RngSpec::Fail { at: 0, partial: 3, seed: s, repeat: 0, code: 0 },
         _ => RngSpec::Prng { seed: s },
     };
     let msg = |len: usize| Claims::Raw(Rng::new(s ^ 0x77).bytes(len));
